@@ -112,7 +112,11 @@ func genC14(t *rapid.T) *c14Case {
 	c.Opts.AlwaysReplace = rapid.IntRange(0, 2).Draw(t, "replace") == 0
 	if rapid.IntRange(0, 4).Draw(t, "wild") == 0 {
 		c.Opts.Wildcards = true
-		c.SrcArg = rapid.SampledFrom([]string{"*", "l/*", "*/a", "a*", "l*", "?"}).Draw(t, "glob")
+		// (one time in three the argument stays a literal path: expansion is switched
+		// on, as builders do for every source, but has nothing to expand)
+		if rapid.IntRange(0, 2).Draw(t, "wildliteral") != 0 {
+			c.SrcArg = rapid.SampledFrom([]string{"*", "l/*", "*/a", "a*", "l*", "?"}).Draw(t, "glob")
+		}
 	}
 	// include/exclude patterns delay the creation of parent directories
 	if rapid.IntRange(0, 2).Draw(t, "patterns") == 0 {
@@ -217,6 +221,56 @@ func genC14(t *rapid.T) *c14Case {
 		c.Include, c.Exclude = nil, nil
 		c.Follow = false
 		c.Dst = &h.Tree{}
+	}
+	// steered scenario: a directory copied into an existing directory, where the name
+	// it is going to get is already taken by a symlink to an outside directory
+	if rapid.IntRange(0, 7).Draw(t, "basenamelink") == 0 {
+		d := rapid.SampledFrom([]string{"a", "b", "d"}).Draw(t, "bl.d")
+		f := rapid.SampledFrom([]string{"a", "c", "inner"}).Draw(t, "bl.f")
+		tg := rapid.SampledFrom([]string{"/outside/dir", "../outside/dir", "../../outside/dir", "/outside/dir/" + d}).Draw(t, "bl.target")
+		src := &h.Tree{Nodes: []h.Node{{Path: d, Kind: h.KDir, Perm: 0o755}, {Path: d + "/" + f, Kind: h.KFile, Perm: 0o644}}}
+		for _, n := range c.Src.Nodes {
+			if n.Path != d && !strings.HasPrefix(n.Path, d+"/") {
+				src.Nodes = append(src.Nodes, n)
+			}
+		}
+		src.Normalize()
+		c.Src = src
+		c.SrcArg = rapid.SampledFrom([]string{d, d + "/", "/" + d}).Draw(t, "bl.src")
+		if rapid.Bool().Draw(t, "bl.deep") {
+			c.Dst = &h.Tree{Nodes: []h.Node{{Path: "e", Kind: h.KDir, Perm: 0o755}, {Path: "e/" + d, Kind: h.KSymlink, Target: tg}}}
+			c.DstArg = rapid.SampledFrom([]string{"e", "e/", "/e"}).Draw(t, "bl.dst")
+		} else {
+			c.Dst = &h.Tree{Nodes: []h.Node{{Path: d, Kind: h.KSymlink, Target: tg}}}
+			c.DstArg = rapid.SampledFrom([]string{"/", ".", ""}).Draw(t, "bl.dst")
+		}
+		c.Dst.Normalize()
+		c.Opts.DirContents = rapid.IntRange(0, 3).Draw(t, "bl.dircontents") == 0
+		c.Opts.AlwaysReplace = rapid.IntRange(0, 3).Draw(t, "bl.replace") == 0
+		c.Opts.Wildcards = rapid.IntRange(0, 3).Draw(t, "bl.wild") == 0
+		c.Include, c.Exclude = nil, nil
+	}
+	// steered scenario: a literal source path that runs through a source symlink to an
+	// outside directory which does hold the named entry, with and without expansion
+	if rapid.IntRange(0, 7).Draw(t, "literalthroughlink") == 0 {
+		l := rapid.SampledFrom([]string{"l", "abs", "b"}).Draw(t, "ll.l")
+		tg := rapid.SampledFrom([]string{"/outside/dir", "../outside/dir", "../../outside/dir", "/outside"}).Draw(t, "ll.target")
+		src := &h.Tree{Nodes: []h.Node{{Path: l, Kind: h.KSymlink, Target: tg}}}
+		for _, n := range c.Src.Nodes {
+			if n.Path != l && !strings.HasPrefix(n.Path, l+"/") {
+				src.Nodes = append(src.Nodes, n)
+			}
+		}
+		if rapid.Bool().Draw(t, "ll.deep") {
+			src.Nodes = append(src.Nodes, h.Node{Path: "zz", Kind: h.KDir, Perm: 0o755}, h.Node{Path: "zz/" + l, Kind: h.KSymlink, Target: tg})
+			l = "zz/" + l
+		}
+		src.Normalize()
+		c.Src = src
+		c.SrcArg = l + "/" + rapid.SampledFrom([]string{"a", "inner", "secret", "dir/a", "dir"}).Draw(t, "ll.f")
+		c.DstArg = rapid.SampledFrom([]string{"out", "new/", "/"}).Draw(t, "ll.dst")
+		c.Opts.Wildcards = rapid.IntRange(0, 2).Draw(t, "ll.wild") != 0
+		c.Include, c.Exclude = nil, nil
 	}
 	// metadata options: applied with chmod/chown/utimes calls that must not follow links
 	if rapid.IntRange(0, 2).Draw(t, "modeopt") == 0 {
